@@ -290,48 +290,51 @@ def disjoint_table(rep, F):
 
 # ------------------------------------------------------------------------------------------------
 def boundary_tables(rep, F):
+    """R1.4, decided by evaluation on constants (independent of how the test is written): determine_boundary(n) for n = 0..5; insert_boundary_point
+    for each possible previous position of the node (the label query answered by a constant model)."""
+    from ..symex import _ret
     rep.rule("R1.4", "mod-2 rule: determine_boundary(n) is OnBoundary iff n is odd; insert_boundary_point turns a node that is already OnBoundary into Inside and any other into OnBoundary")
+    CP = "geo::algorithm::coordinate_position::CoordPos"
     try:
         fn = F.one(r"^%s::<[^>]*>::determine_boundary$" % GG, crates=("geo",))
-        ps = [p for p in Symex(F).run(fn) if p.kind == "ret"]
         table = {}
-        for p in ps:
-            s = show_pc(p.pc)
-            m = re.search(r"\(\(a1 Rem 2\) == 1\)=(\d)", s)
-            if m and p.ret[0] == "adt":
-                table[int(m.group(1))] = p.ret[2]
-        if table == {1: "OnBoundary", 0: "Inside"}:
+        for n in range(6):
+            ps = [p for p in Symex(F).run(fn, args=[("const", n)]) if p.kind == "ret"]
+            if len(ps) != 1 or ps[0].pc or ps[0].ret[0] != "adt":
+                raise Unanalysable("determine_boundary(%d) is not a constant: %s" % (n, [show_pc(p.pc)[:60] for p in ps][:2]))
+            table[n] = ps[0].ret[2]
+        if all(table[n] == ("OnBoundary" if n % 2 else "Inside") for n in table):
             rep.ok("R1.4", "determine_boundary", sample=table)
         else:
-            rep.bad("R1.4", "determine_boundary", "parity table is %s (decided on %s)" % (table, [show_pc(p.pc)[:60] for p in ps][:2]), where=fn.loc())
+            rep.bad("R1.4", "determine_boundary", "determine_boundary(0..5) = %s, expected OnBoundary exactly for odd counts" % table, where=fn.loc())
     except (KeyError, Unanalysable) as e:
         rep.bad("R1.4", "determine_boundary:anchor", str(e))
     try:
         fn = F.one(r"^%s::<[^>]*>::insert_boundary_point$" % GG, crates=("geo",))
-        ex = Symex(F, no_inline=[r"add_node_with_coordinate$", r"label_mut$", r"Label::position$", r"Label::set_on_position$", r"::position$", r"::set_on_position$"])
-        ps = [p for p in ex.run(fn) if p.kind == "ret"]
         table = {}
-        atom_ok = True
-        for p in ps:
-            atoms = [(t, v) for t, v in p.pc]
-            if len(atoms) != 1:
-                atom_ok = False
-                continue
-            t, v = atoms[0]
-            s = show(t)
-            if not (re.search(r"Option::Some\(CoordPos::OnBoundary\(\)\)", s) and "position(" in s and "Direction::On" in s and re.search(r"eq\(|==", s)):
-                atom_ok = False
-            sets = [c for c in calls_of(p) if c[1].endswith("set_on_position")]
-            if len(sets) == 1:
-                newpos = sets[0][2][2]
-                table[v] = newpos[2] if newpos[0] == "adt" else show(newpos)
-        if atom_ok and table == {1: "Inside", 0: "OnBoundary"}:
+        for prev in (None, "OnBoundary", "Inside", "Outside"):
+            val = ("adt", "core::option::Option", "None", ()) if prev is None else ("adt", "core::option::Option", "Some", (("adt", CP, prev, ()),))
+
+            def pos_model(ex, st, call, args, val=val):
+                return _ret(st, val)
+            models = {}
+            for g in F.find(r"label::Label::position$|label::Label::on_position$", crates=("geo",)):
+                models[g.path] = pos_model
+            ex = Symex(F, models=models, no_inline=[r"add_node_with_coordinate$", r"label_mut$", r"Label::set_on_position$", r"::set_on_position$"])
+            ex.fold_ground_eq = True
+            ps = [p for p in ex.run(fn) if p.kind == "ret"]
+            sets = [c for p in ps for c in calls_of(p) if c[1].endswith("set_on_position")]
+            if len(ps) != 1 or ps[0].pc or len(sets) != 1:
+                raise Unanalysable("with previous position %s: %d paths, %d set_on_position calls, path condition [%s]" % (prev, len(ps), len(sets), show_pc(ps[0].pc)[:80] if ps else ""))
+            newpos = sets[0][2][2]
+            table[str(prev)] = newpos[2] if newpos[0] == "adt" else show(newpos)
+        want = {"None": "OnBoundary", "OnBoundary": "Inside", "Inside": "OnBoundary", "Outside": "OnBoundary"}
+        if table == want:
             rep.ok("R1.4", "insert_boundary_point", sample=table)
         else:
-            rep.bad("R1.4", "insert_boundary_point", "the previous boundary count is not `1 iff the node is already OnBoundary` (decided on %s; new position table %s): three or more end points at one coordinate would not alternate" %
-                    ([show_pc(p.pc)[:100] for p in ps][:2], table), where=fn.loc())
+            rep.bad("R1.4", "insert_boundary_point", "previous position -> new position is %s, expected %s: three or more end points at one node must alternate boundary / interior" % (table, want), where=fn.loc())
     except (KeyError, Unanalysable) as e:
-        rep.bad("R1.4", "insert_boundary_point:anchor", str(e))
+        rep.bad("R1.4", "insert_boundary_point", str(e))
 
 
 def exactness(rep, F):
